@@ -158,8 +158,7 @@ def oracle(ck, tier, deep):
                 s = quiet(analytical.SampleImage, n, name=name, **kw)
                 if rng.random() < 0.5:
                     _ = s.abel                       # a first transform with the default tolerance must not fix later ones
-                    if tol > 4e-3:
-                        tol = 1e-3
+                    tol = 1e-5                       # far tighter than the default 4.8e-3 the first transform used
                 ab = quiet(s.transform, tol)
             except Exception as e:
                 ck.violation(dict(site="SampleImage", clause="exception", name=name), rep, f"{type(e).__name__}: {e}")
